@@ -233,6 +233,8 @@ func (r *FeatureLocal) ApproveOrDenyWrite(msg *api.Message, err model.ErrorType)
 		return
 	}
 
+	verifPoint("ApproveOrDenyWrite.afterLookup", r)
+
 	// do we have enough approvals?
 	r.muxWriteReceived.Lock()
 	defer r.muxWriteReceived.Unlock()
